@@ -96,6 +96,7 @@ class FuncResult(object):
         self.ins_visited = 0
         self.assumed_indexed = 0
         self.callargs = []       # (ins, target, {argreg: value})
+        self.store_facts = {}    # store ins addr -> [(entry-derived value, (lo, hi))] interval facts live at the store
         self.dead_edges = set()  # CFG edges proved infeasible by the known-bits facts
         self.callctx = {}        # call ins addr -> context facts passed to the callee summary
         self.mindex = {}         # ins addr -> abstract value of the index register of its memory operand
@@ -334,6 +335,10 @@ class Interp(object):
                     av = self.addr_of(regs, i)
                     if av is not None:
                         res.maddr[i.addr] = (av[0], av[1], i.memsize())
+                        if "R:RAX" in regs and i.writes_mem_operand() and av[0][0] == "init":
+                            fx = [(regs[r], regs["R:" + r]) for r in G64 if regs["R:" + r] is not None and regs[r][0] == "init"]
+                            if fx:
+                                res.store_facts[i.addr] = fx
                         m = i.memop()
                         if m and m[2]:
                             res.mindex[i.addr] = self.val(regs, m[2])
